@@ -16,6 +16,10 @@ pub static F_HARNESS_DEREF: AtomicBool = AtomicBool::new(false);
 /// An object was destroyed only because a stale record (elided unadopt) made the
 /// documented orphan test condemn it (finding K1); later memory faults follow from it.
 pub static F_STALE_DESTRUCTION: AtomicBool = AtomicBool::new(false);
+/// The running profile is the std differential (C07): every violation belongs to it.
+pub static F_DIFFSTD: AtomicBool = AtomicBool::new(false);
+/// The running profile is the abort enumeration (C16).
+pub static F_C16: AtomicBool = AtomicBool::new(false);
 pub static F_QUIET: AtomicBool = AtomicBool::new(false);
 pub static STEP: AtomicU32 = AtomicU32::new(0);
 
@@ -62,6 +66,14 @@ pub fn attribute(kind: &str, out: &mut [&'static str; 6]) -> usize {
     let consuming = F_CONSUMING.load(Relaxed);
     let elided = F_ELIDED.load(Relaxed);
     let mut n = 0;
+    if F_DIFFSTD.load(Relaxed) {
+        out[0] = "C07";
+        return 1;
+    }
+    if F_C16.load(Relaxed) {
+        out[0] = "C16";
+        return 1;
+    }
     let mut push = |p: &'static str, n: &mut usize| {
         if !out[..*n].contains(&p) {
             out[*n] = p;
@@ -163,7 +175,10 @@ pub fn emit_raw(kind: &str, cause: &str, msg: &str, addr: u64) {
     if F_QUIET.load(Relaxed) {
         return;
     }
-    let safety = is_memory_kind(kind) || matches!(kind, "double-destruction" | "corrupt-value");
+    // After an object has been destroyed only because of a stale record while a
+    // handle to it still existed somewhere, every later safety violation of the same
+    // execution is a consequence of that destruction (finding K1).
+    let safety = is_memory_kind(kind) || matches!(kind, "double-destruction" | "corrupt-value" | "premature-destruction");
     let cause = if safety && F_ELIDED.load(Relaxed) && F_STALE_DESTRUCTION.load(Relaxed) { "stale-record-explains-orphan" } else { cause };
     let mut props: [&'static str; 6] = [""; 6];
     let np = attribute(kind, &mut props);
